@@ -137,6 +137,8 @@ def line_part(chk, tier):
             f, offs, term = files["crlf" if r["o"]["crlf"] else "lf"]
             pa = rr.opt_flags(r["o"]) + ["-e", rr.render(r["u"])]
             variants = ["plain", "context", "json", "jsonctx", "jsonpass"] + ([] if r["o"]["inv"] else ["vimgrep"])
+            if i % 3 == 0:
+                variants += ["heading", "null", "withname"]
             for v in variants:
                 if v == "plain":
                     a = ["-n", "-b", "--no-heading"] + ([] if r["o"]["inv"] else ["--column"])
@@ -144,6 +146,12 @@ def line_part(chk, tier):
                     a = ["--vimgrep", "-b"]
                 elif v == "context":
                     a = ["-n", "-b", "--no-heading", "-C1"]
+                elif v == "heading":
+                    a = ["-n", "-b", "--heading", "-H"] + ([] if r["o"]["inv"] else ["--column"])
+                elif v == "null":
+                    a = ["-n", "-b", "--no-heading", "-H", "--null"] + ([] if r["o"]["inv"] else ["--column"])
+                elif v == "withname":
+                    a = ["-n", "-b", "--no-heading", "-H"] + ([] if r["o"]["inv"] else ["--column"])
                 elif v == "json":
                     a = ["--json"]
                 elif v == "jsonpass":
@@ -161,6 +169,25 @@ def line_part(chk, tier):
             strip = (lambda x: x[:-1] if term == b"\r\n" and x.endswith(b"\r") else x)
             if rc not in (0, 1):
                 why = "rg failed rc=%d %s" % (rc, se[:200])
+            elif v in ("heading", "null", "withname"):
+                # path decoration: --heading puts the path on a line of its own, -H prefixes `path:`, --null ends the path with NUL
+                exp = recs_plain(r, lines, offs)
+                skip = set(k for k, c in enumerate(lines, 1) if not judged(r, c))
+                raw = [strip(x) for x in so.split(b"\n") if x != b""]
+                fb = f.encode()
+                if v == "heading":
+                    ok_path = (not exp and not raw) or (raw and raw[0] == fb)
+                    got = raw[1:] if raw else []
+                else:
+                    pre = fb + (b"\x00" if v == "null" else b":")
+                    ok_path = all(x.startswith(pre) for x in raw)
+                    got = [x[len(pre):] for x in raw]
+                got = [g for g in got if g.split(b":", 1)[0].isdigit() and int(g.split(b":", 1)[0]) not in skip]
+                if not ok_path:
+                    why = "path decoration of mode %s is wrong: %r" % (v, raw[:2])
+                elif got != exp:
+                    k = next((k for k, (a, b) in enumerate(zip(got, exp)) if a != b), min(len(got), len(exp)))
+                    why = {"first_difference": k, "got": repr(got[k:k + 2]), "expected": repr(exp[k:k + 2])}
             elif v in ("plain", "vimgrep", "context"):
                 got = [strip(x) for x in so.split(b"\n") if x != b""]
                 if v == "plain":
@@ -207,14 +234,49 @@ def ml_part(chk, tier):
         for k, r in enumerate(recs):
             inp = rr.sym_bytes(r["scn"]["inp"])
             f = sc.write("d%d/f%d" % (k % 50, k), inp)
-            args = ["--no-config", "--color", "never", "-j1", "-U", "--vimgrep", "-b"]
-            if r["scn"]["o"]["dotall"]:
-                args.append("--multiline-dotall")
-            jobs.append({"args": args + ["-e", rr.render(r["scn"]["u"]), f], "_f": f, "_inp": inp})
+            for form in (["--vimgrep", "-b"], ["-n", "-b", "--column", "--no-heading"]):
+                args = ["--no-config", "--color", "never", "-j1", "-U"] + form
+                if r["scn"]["o"]["dotall"]:
+                    args.append("--multiline-dotall")
+                jobs.append({"args": args + ["-e", rr.render(r["scn"]["u"]), f], "_f": f, "_inp": inp, "_r": r, "_std": form[0] == "-n"})
         outs = rgrun.run_many(jobs)
         chk.evaluations += len(jobs)
-        for r, j, (rc, so, se) in zip(recs, jobs, outs):
+        for j, (rc, so, se) in zip(jobs, outs):
+            r = j["_r"]
             inp = j["_inp"]
+            if j["_std"]:
+                # -U -n -b --column: every line covered by a match is printed with its number, the column of the first
+                # match in it (1 when a match continues from the previous line) and the offset of the line
+                exp = []
+                pos, ln = 0, 1
+                while pos < len(inp):
+                    e = inp.find(b"\n", pos)
+                    e = len(inp) if e < 0 else e
+                    end = min(e + 1, len(inp))
+                    over = [m for m in r["ms"] if m[0] < end and m[1] > pos]
+                    if over:
+                        col = max(over[0][0] - pos, 0) + 1
+                        exp.append(b"%d:%d:%d:%s" % (ln, col, pos, inp[pos:e]))
+                    pos, ln = end, ln + 1
+                got = [x for x in so.split(b"\n") if x]
+                if got != exp:
+                    # mechanism: do the two differ only in the column of lines that continue a block (a line whose
+                    # predecessor is printed too)?
+                    def nocol(recs):
+                        out = []
+                        prev = 0
+                        for x in recs:
+                            p = x.split(b":", 3)
+                            n = int(p[0]) if p[0].isdigit() else -1
+                            out.append(p[:1] + p[2:] if (len(p) == 4 and n == prev + 1 and prev) else p)
+                            prev = n
+                        return out
+                    sig_extra = {"ml_column_repeat": True} if nocol(got) == nocol(exp) else {}
+                    chk.violation(dict({"variant": "ml_standard", "pattern": rr.render(r["scn"]["u"]), "opts": sorted(k for k, v in r["scn"]["o"].items() if v)}, **sig_extra),
+                                  {"why": {"got": repr(got[:4]), "expected": repr(exp[:4])}, "args": j["args"][:-1], "input": list(inp)})
+                else:
+                    chk.validated += 1
+                continue
             exp = []
             for s, e in r["ms"]:
                 ls = inp.rfind(b"\n", 0, s) + 1
